@@ -49,6 +49,7 @@ type FileSpec struct {
 	Name int  `json:"name"`
 	Body int  `json:"body"`
 	NoNL bool `json:"no_nl,omitempty"` // directory layout only: no final newline
+	Big  bool `json:"big,omitempty"`   // about 70 KB of incompressible text (a zip larger than one copy buffer)
 }
 
 type ModVer struct {
@@ -138,6 +139,7 @@ func genPlan(t *rapid.T, tier string) any {
 			if m.Layout == "dir" {
 				f.NoNL = rapid.IntRange(0, 3).Draw(t, "nonl") == 0
 			}
+			f.Big = rapid.IntRange(0, 9).Draw(t, "big") == 0
 			m.Files = append(m.Files, f)
 		}
 		p.Mods = append(p.Mods, m)
@@ -180,6 +182,10 @@ func genPlan(t *rapid.T, tier string) any {
 		}
 		if r.Near == 0 && versions[r.Ver] == pseudo && rapid.IntRange(0, 2).Draw(t, "byhash") == 0 {
 			r.Hash = rapid.SampledFrom([]string{"abcdef123456", "abcdef12", "abcdef1234567890"}).Draw(t, "hash")
+		}
+		if rapid.IntRange(0, 14).Draw(t, "touch") == 0 {
+			// not a request: somebody drops an unrelated file into the served directory
+			return Req{Kind: "touch"}
 		}
 		switch rapid.IntRange(0, 11).Draw(t, "clientfault") {
 		case 0:
@@ -255,6 +261,18 @@ func body(m ModVer, f FileSpec) []byte {
 	}
 	if f.Body == 5 {
 		s = "" // an empty file
+	}
+	if f.Big {
+		var b strings.Builder
+		b.WriteString(s)
+		x := uint64(f.Name*7+f.Body)*0x9e3779b97f4a7c15 + 12345
+		for b.Len() < 70000 {
+			x ^= x << 13
+			x ^= x >> 7
+			x ^= x << 17
+			fmt.Fprintf(&b, "// %016x\n", x)
+		}
+		s = b.String()
 	}
 	if f.NoNL && len(s) > 0 {
 		s = s[:len(s)-1]
@@ -427,7 +445,7 @@ func runWith(t *testing.T, p *Plan, out *simcheck.Outcome, dir, other string, ke
 		return url, expect{code: 200, zip: z}
 	}
 
-	requests, sharedFirst, gone, slow, unasserted, otherReqs := 0, 0, 0, 0, 0, 0
+	requests, sharedFirst, gone, slow, unasserted, otherReqs, touches := 0, 0, 0, 0, 0, 0, 0
 	rep := simrt.Run(t, simrt.Options{Sched: p.Sched, Strict: true, MaxSteps: 200000, KeepTrace: keep}, func(s *simrt.Sim) {
 		if len(p.Other) > 0 {
 			// an earlier server of this process, over another directory: servers are independent of each other
@@ -460,6 +478,11 @@ func runWith(t *testing.T, p *Plan, out *simcheck.Outcome, dir, other string, ke
 			s.Go(fmt.Sprintf("client%d", ci), 0, func() {
 				defer func() { remaining-- }()
 				for ri, r := range reqs {
+					if r.Kind == "touch" {
+						touches++
+						os.WriteFile(filepath.Join(dir, fmt.Sprintf("NOTES-%d-%d.md", ci, ri)), []byte("not a module either\n"), 0o666)
+						continue
+					}
 					url, exp := want(r)
 					h := simnet.Lookup(hostport)
 					if h == nil {
@@ -572,6 +595,7 @@ func runWith(t *testing.T, p *Plan, out *simcheck.Outcome, dir, other string, ke
 	out.SimSeconds = simtime.Offset().Seconds()
 	out.Count("requests", int64(requests))
 	out.Count("requests_to_an_earlier_server_of_the_process", int64(otherReqs))
+	out.Count("unrelated_files_dropped_into_the_directory", int64(touches))
 	out.Count("fault_client_gave_up", int64(gone))
 	out.Count("fault_slow_client", int64(slow))
 	out.Count("requests_by_commit_hash_unasserted", int64(unasserted))
@@ -602,6 +626,8 @@ type slowWriter struct {
 }
 
 func (w *slowWriter) Write(b []byte) (int, error) {
+	// the handler can be descheduled at every write to the connection
+	simrt.Yield("net.write")
 	if w.stall > 0 && !w.stalled {
 		w.stalled = true
 		w.elapsed += w.stall
@@ -651,8 +677,8 @@ var harness = &simcheck.Harness{
 	Property: "C20",
 	Level:    "exploration",
 	Rule: "rapid draws a module directory (1-5 module versions over 4 paths incl. upper-case and /v2, 8 versions incl. pre-release, pseudo, +incompatible, upper-case and invalid-for-path ones; " +
-		".txt, .txtar or directory layout; .info, .mod, nested files, top-level and nested dot files, empty files, files without final newline), optionally an earlier Server of the same process over a directory that disagrees with this one (asked for everything it stores, then closed), then 2-5 client tasks with 1-5 requests each " +
-		"(list / .info / .mod / .zip of stored and absent versions, near-miss spellings of stored versions such as v1, v1.0, v1.0.0+meta, malformed URLs, a storm of 10-24 requests for distinct module paths that do not exist, requests naming the stored pseudo-version by its commit hash (unasserted disturbers), and client faults: a client that has given up before the handler runs (cancelled context, unasserted), slow clients whose headers or response writes take 1-120 simulated seconds against whatever time limits the server was configured with; two thirds of the clients share their first request) and a schedule; " +
+		".txt, .txtar or directory layout; .info, .mod, nested files, top-level and nested dot files, empty files, now and then a 70 KB file, files without final newline), optionally an earlier Server of the same process over a directory that disagrees with this one (asked for everything it stores, then closed), then 2-5 client tasks with 1-5 requests each " +
+		"(list / .info / .mod / .zip of stored and absent versions, near-miss spellings of stored versions such as v1, v1.0, v1.0.0+meta, malformed URLs, unrelated files dropped into the served directory between requests, a storm of 10-24 requests for distinct module paths that do not exist, requests naming the stored pseudo-version by its commit hash (unasserted disturbers), and client faults: a client that has given up before the handler runs (cancelled context, unasserted), slow clients whose headers or response writes take 1-120 simulated seconds against whatever time limits the server was configured with; two thirds of the clients share their first request) and a schedule; " +
 		"non-trivial = more context switches than clients+3; distinct by decision-trace hash",
 	Gen:     genPlan,
 	NewPlan: func() any { return &Plan{} },
